@@ -100,3 +100,12 @@ pub proof fn lemma_or_b2u(x: u64, p: bool, q: bool)
     assert(c == (a | b)) by (bit_vector) requires (a == 0 || a == 1), (b == 0 || b == 1), c == (if a == 1 || b == 1 { 1u64 } else { 0u64 });
     assert((x | a) | b == x | (a | b)) by (bit_vector);
 }
+
+/// the mantissa handed to the float conversion (the value itself up to 64 bits, else its top 64 bits rounded to odd) and the
+/// binary exponent that goes with it
+pub open spec fn fmant(s: Seq<u64>) -> u64 {
+    if s.len() == 0 { 0u64 } else if s.len() == 1 { s[0] } else { hb_spec(s) }
+}
+pub open spec fn fexp(s: Seq<u64>) -> int {
+    if s.len() <= 1 { 0int } else { 64 * (s.len() - 2) + nbits(s[s.len() - 1]) }
+}
